@@ -92,6 +92,8 @@ type Engine struct {
 	Verbose   bool
 	inlineOK  map[*ssa.Function]int
 	srcCache  map[string][]byte
+	CurProp   string
+	globCache map[*ssa.Function]map[*ssa.Global]bool
 }
 
 var rxImpl = regexp.MustCompile(`==>`)
